@@ -65,7 +65,7 @@ LoopF(cfg, opts, r) ==
      THEN LET f == ReturnF(cfg, opts, u) IN [st |-> f, lg |-> Header(r.lg, f, opts)]
      ELSE LET a == AllocF(cfg, opts, PresenceF(cfg, opts, u))
           IN IF a.crash THEN [st |-> a, lg |-> Header(r.lg, a, opts)]
-             ELSE LET p == PerformF(cfg, opts, StartPhaseF(cfg, a))
+             ELSE LET p == PerformF(cfg, opts, StartPhaseF(cfg, opts, a))
                   IN LoopF(cfg, opts, [st |-> TickF(RecordF(cfg, opts, p)),
                                        lg |-> AppendLogs(cfg, opts, r.lg, p)])
 
@@ -100,4 +100,33 @@ RemoveAbsenceF(lg) ==
   LET S == ToSet(lg.absL)
       m == MapLogs(lg, LAMBDA s: Drop(s, S))
   IN [m EXCEPT !.absL = <<>>, !.time = Len(m.pcost)]
+
+\* ---- backward_simulate: the model the inner simulate() runs on ---------------------------
+\* reverse_dependencies() swaps input/output lists of tasks and workplaces; with
+\* considering_due_time_of_tail_tasks a helper auto task is put in front of every tail task
+\* whose due time is smaller than the largest one.
+RevDeps(cfg) == [i \in DOMAIN cfg.deps |-> <<cfg.deps[i][2], cfg.deps[i][1], cfg.deps[i][3]>>]
+RevInputs(cfg, p) == SelectSeq([q \in Wps(cfg) |-> q], LAMBDA q: Mem(cfg.wps[q].inputs, p))
+BackwardCfg(cfg, due) ==
+  LET n == Len(cfg.tasks)
+      rd == RevDeps(cfg)
+      c1 == [cfg EXCEPT !.deps = rd,
+                        !.wps = [p \in Wps(cfg) |-> [cfg.wps[p] EXCEPT !.inputs = RevInputs(cfg, p)]]]
+      tails == SelectSeq([t \in 1..n |-> t], LAMBDA t: Len(InEdges(c1, t)) = 0)
+      maxdue == Max({ cfg.tasks[t].due : t \in ToSet(tails) })
+      need == SelectSeq(tails, LAMBDA t: cfg.tasks[t].due < maxdue)
+      helper(j) == [cfg.tasks[1] EXCEPT
+                      !.work = (maxdue - cfg.tasks[need[j]].due) * cfg.Q, !.prog = 0, !.auto = TRUE,
+                      !.rate = cfg.Q, !.needF = FALSE, !.comp = 0, !.teams = <<>>, !.wps = <<>>,
+                      !.fixWon = FALSE, !.fixW = <<>>, !.fixFon = FALSE, !.fixF = <<>>,
+                      !.wrule = "SSP", !.frule = "SSP", !.prule = "FSS", !.due = -1,
+                      !.rank = 100 + j, !.sub = FALSE]
+  IN IF ~due \/ Len(need) = 0 THEN c1
+     ELSE [c1 EXCEPT
+             !.tasks = cfg.tasks \o [j \in 1..Len(need) |-> helper(j)],
+             !.deps = rd \o [j \in 1..Len(need) |-> <<n + j, need[j], "FS">>],
+             !.workers = [w \in Workers(cfg) |->
+                            [cfg.workers[w] EXCEPT !.skill = @ \o [j \in 1..Len(need) |-> -1]]],
+             !.facs = [f \in Facs(cfg) |->
+                            [cfg.facs[f] EXCEPT !.skill = @ \o [j \in 1..Len(need) |-> -1]]]]
 =============================================================================
